@@ -245,12 +245,18 @@ func (s *Scanner) Next() (lexeme.LexEvent, bool) {
 		s.index++
 		switch s.stack.Peek().Type() { //nolint:exhaustive // We handle all cases.
 		case lexeme.LiteralBegin:
+			if s.unfinishedLiteral {
+				break
+			}
 			return s.processingFoundLexeme(lexeme.LiteralEnd), true
 		case lexeme.InlineAnnotationBegin:
 			return s.processingFoundLexeme(lexeme.InlineAnnotationEnd), true
 		case lexeme.InlineAnnotationTextBegin:
 			return s.processingFoundLexeme(lexeme.InlineAnnotationTextEnd), true
 		case lexeme.TypesShortcutBegin:
+			if s.unfinishedLiteral {
+				break
+			}
 			s.found(lexeme.MixedValueEnd)
 			return s.processingFoundLexeme(lexeme.TypesShortcutEnd), true
 		}
@@ -1163,6 +1169,7 @@ func stateNul(s *Scanner, c byte) state {
 
 func stateTypesShortcutBeginOfSchemaName(s *Scanner, c byte) state {
 	if bytes.IsValidUserTypeNameByte(c) {
+		s.unfinishedLiteral = false
 		s.step = stateTypesShortcutSchemaName
 		return scanContinue
 	}
@@ -1190,6 +1197,7 @@ func stateTypesShortcutSchemaName(s *Scanner, c byte) state {
 		s.step = stateTypesShortcutBeforePipe
 
 	case c == '|':
+		s.unfinishedLiteral = true
 		s.step = stateTypesShortcutAfterPipe
 
 	default:
@@ -1216,6 +1224,7 @@ func stateTypesShortcutBeforePipe(s *Scanner, c byte) state {
 		s.step = stateTypesShortcutBeforePipe
 
 	case c == '|':
+		s.unfinishedLiteral = true
 		s.step = stateTypesShortcutAfterPipe
 
 	default:
